@@ -786,7 +786,18 @@ impl<'a> Gen<'a> {
         Tp(s, p, o)
     }
     fn bgp(&mut self, used: &mut Vec<usize>, n: usize, allow_repvar: bool) -> Pat {
-        Pat::Bgp((0..n).map(|_| self.tp(used, allow_repvar)).collect())
+        let mut tps: Vec<Tp> = (0..n).map(|_| self.tp(used, allow_repvar)).collect();
+        // a join on two shared variables: the same subject and object variables under another predicate
+        if n >= 2 && self.r.chance(1, 4) {
+            if let (Pos::Var(a), Pos::Var(b)) = (tps[0].0.clone(), tps[0].2.clone()) {
+                if a != b {
+                    let p = self.r.pick(&self.d.preds).clone();
+                    let swap = self.r.chance(1, 4);
+                    tps[1] = if swap { Tp(Pos::Var(b), Pos::Const(p), Pos::Var(a)) } else { Tp(Pos::Var(a), Pos::Const(p), Pos::Var(b)) };
+                }
+            }
+        }
+        Pat::Bgp(tps)
     }
     fn constant_for_filter(&mut self) -> T {
         let c = self.r.pick(&self.d.objs).clone();
@@ -1194,6 +1205,17 @@ fn corpus_sparql(r: &mut Rng, out: &mut Out) {
     let mut q1 = sel(Pat::Bgp(vec![Tp(v(0), k(&p), v(1))]), Proj::Vars(vec![0]));
     q1.distinct = true;
     run_select_case(r, out, &d1, &q1, 2, "corpus-S1-distinct");
+    // a join on two shared variables (well-behaved): only (a, b) satisfies both patterns
+    let dj = data(
+        vec![(a.clone(), p.clone(), b.clone()), (a.clone(), q.clone(), b.clone()), (a.clone(), q.clone(), c.clone()), (c.clone(), p.clone(), b.clone())],
+        true,
+    );
+    run_select_case(r, out, &dj, &sel(Pat::Bgp(vec![Tp(v(0), k(&p), v(1)), Tp(v(0), k(&q), v(1))]), Proj::Star), 2, "corpus-join2");
+    run_select_case(
+        r, out, &dj,
+        &sel(Pat::Join(Box::new(Pat::Bgp(vec![Tp(v(0), k(&p), v(1))])), Box::new(Pat::Bgp(vec![Tp(v(1), k(&q), v(0))]))), Proj::Vars(vec![1, 0])),
+        2, "corpus-join2",
+    );
     // S2 repeated variable in one triple pattern
     let d2 = data(vec![(a.clone(), p.clone(), a.clone()), (a.clone(), p.clone(), b.clone())], true);
     run_select_case(r, out, &d2, &sel(Pat::Bgp(vec![Tp(v(0), k(&p), v(0))]), Proj::Star), 1, "corpus-S2-repvar");
